@@ -196,6 +196,46 @@ CHECKS = {
         "generated alphabet (their meaning is not fixed by the statement).",
         "DESIGN.md 3/C12",
     ),
+    "C07": (
+        "Hypothesis-generated nested payloads (leaf globals x loader nest depth 0-3 x additions) "
+        "through all four hooked entry points; audit-event oracle + differential against the "
+        "stock pickle module",
+        "Generated-input search under an independent monitor: every pickle.find_class audit event "
+        "raised while the safe ML environment is active must belong to the built-in allowlist "
+        "snapshot or the activation's additions; payloads naming anything else anywhere in the "
+        "nest must abort with UnsafeFileError without running the sink; fully allowed payloads "
+        "must behave exactly as with the hooks removed.",
+        "Trusted: CPython's pickle.find_class audit event (raised by every Unpickler subclass "
+        "that reaches the default find_class); KF-C07-1 (legacy/zip containers through torch's own "
+        "Unpickler) is an open known finding, replayed.",
+        "DESIGN.md 3/C07",
+    ),
+    "C16": (
+        "Hypothesis-generated torch objects saved with torch.save x payload x overwrite; zip "
+        "member differential, sha256, sink log and tensor-equality oracle after a real torch.load",
+        "Generated-input search: models, state dicts and nested tensor containers over nine "
+        "dtypes, zero-size and shared storages are saved, injected by insertion and reloaded; "
+        "only data.pkl may change (and must equal the library-level insertion), the payload must "
+        "run exactly once, the object must be equal, the input must be untouched or cleanly "
+        "replaced.",
+        "Trusted: installed torch writer/reader; zipfile; the library-level insert_python_exec "
+        "(decided by C08) as the reference for data.pkl.",
+        "DESIGN.md 3/C16",
+    ),
+    "C17": (
+        "exhaustive 384-file marker-subset product + real torch files + all ordered pairs as "
+        "polyglot inputs + Hypothesis member variations; README-table, determinism, sha256 and "
+        "directory-listing oracles",
+        "Generated-input / crash-point search: identification must be deterministic, read-only and "
+        "match a table written from the README on every zip-at-offset-0 marker subset; polyglot "
+        "creation over every ordered pair of real files (most of which cannot be combined) must "
+        "leave inputs and working directory clean whether it returns or raises, and successful "
+        "outputs must be identified as each combined format.",
+        "Trusted: README table as transcribed in table_check(); torch's own reader for the "
+        "'accepted by PyTorch's zip loader' clause; cells where README and implementation "
+        "comments disagree are asserted one-sidedly.",
+        "DESIGN.md 3/C17",
+    ),
 }
 
 PENDING = {}
